@@ -4,6 +4,7 @@ use crate::evidence::Ctx;
 
 pub mod c11;
 pub mod c15;
+pub mod c16;
 pub mod c17;
 pub mod c19;
 pub mod c20;
@@ -12,6 +13,7 @@ pub fn run(ctx: &mut Ctx) -> Result<(), String> {
     match ctx.prop.as_str() {
         "C11" => c11::run(ctx),
         "C15" => c15::run(ctx),
+        "C16" => c16::run(ctx),
         "C17" => c17::run(ctx),
         "C19" => c19::run(ctx),
         "C20" => c20::run(ctx),
